@@ -7,6 +7,7 @@ import (
 	"fmt"
 	"os"
 	"runtime"
+	"runtime/debug"
 	"sort"
 
 	lz4 "github.com/pierrec/lz4/v4"
@@ -62,6 +63,9 @@ func main() {
 		fatal("unknown property %q", c.Prop)
 	}
 	c.open(out)
+	// soft limit: the collector works harder instead of letting garbage pile up to twice the live heap
+	// (16 workers share the machine); nothing fails when it is exceeded
+	debug.SetMemoryLimit(3 << 30)
 	// the step counter (runaway-loop monitor of Watch) is on for every property; perturbation stays off
 	// unless a property switches it on
 	lz4.VerifSetHooks(mon.Yield, nil, nil, nil)
